@@ -1,7 +1,8 @@
 ---- MODULE Transfer_Trace ----
 (* Binding B2: recorded runs of the real receivers at production sizes (1150-byte Xfer      *)
 (* pieces produced by the real sender, 1000-byte Transfer pieces).  Records:                *)
-(*  Start  {proto, n, C, pieces:[lengths of the pieces the sender produced], eofs:[0/1..],  *)
+(*  Start  {proto, n, C, ids:[piece numbers], pieces:[lengths of the pieces the sender       *)
+(*          produced], eofs:[0/1..],                                                          *)
 (*          head:[first bytes of piece 0]}                                                   *)
 (*  Arrive {i, done, asm_is_payload}  after piece i was delivered and the loop pumped        *)
 (*  Foreign {done, asm_is_payload}    after a packet of another transfer                     *)
@@ -19,13 +20,15 @@ TInit == Start("none", 0, 1) /\ l = 1 /\ tid = -1
 TReset == /\ IsEvent("Reset") /\ tid' = Rec.tid
           /\ proto' = "none" /\ n' = 0 /\ C' = 1 /\ got' = {} /\ eofSeen' = FALSE /\ stored' = 0 /\ arrivals' = 0 /\ done' = FALSE
 \* lengths of the pieces of a wire image of length len
+Take(s, k) == SubSeq(s, 1, Min(k, Len(s)))       \* never reads past the end: a short head fails the clause, not TLC
 PieceLens(len, c) == [k \in 1..NumChunks(len, c) |-> Min(k * c, len) - (k - 1) * c]
 TStart == /\ IsEvent("Start") /\ UNCHANGED tid
           /\ proto' = Rec.proto /\ n' = Rec.n /\ C' = Rec.C /\ got' = {} /\ eofSeen' = FALSE /\ stored' = 0 /\ arrivals' = 0 /\ done' = FALSE
+          /\ Chk("sender: pieces numbered from 0", Rec.ids = [k \in 1..Len(Rec.ids) |-> k - 1])
           /\ Chk("sender: piece lengths", Rec.pieces = PieceLens(WireLen(Rec.proto, Rec.n), Rec.C))
           /\ Chk("sender: only the last piece is end-marked",
                  Rec.eofs = [k \in 1..NumChunks(WireLen(Rec.proto, Rec.n), Rec.C) |-> IF k = NumChunks(WireLen(Rec.proto, Rec.n), Rec.C) THEN 1 ELSE 0])
-          /\ Chk("sender: length prefix", Rec.proto = "xfer" => SubSeq(Rec.head, 1, 4) = LE32(Rec.n))
+          /\ Chk("sender: length prefix", Rec.proto = "xfer" => Take(Rec.head, 4) = LE32(Rec.n))
           /\ Chk("sender: payload follows the prefix",
                  LET w == Wire(Rec.proto, Min(Rec.n, 12)) IN SubSeq(Rec.head, 1, Min(Len(Rec.head), Len(w))) =
                      (IF Rec.proto = "xfer" THEN LE32(Rec.n) \o Payload(Min(Rec.n, 12)) ELSE w))
